@@ -512,6 +512,12 @@ pub fn judge_c01(cfg: &HybCfg, ops: &[HOp], trace: &HTrace) -> C01Judgement {
                         "disk-only-entry-with-held-handle".to_string()
                     } else if cfg.algo.is_lru() && tl.lru_pinned_at_close(key, a) {
                         "lru-pinned-entry-skipped-by-flush-on-close".to_string()
+                    } else if kind == "stale-version-returned"
+                        && returned_version.map(|rv| older_version_written_after_newer(cfg, trace, gen_at(a), key, rv)).unwrap_or(false)
+                    {
+                        // known finding shared with C09 (see known-findings.txt): the blocks of one multi-block batch reach
+                        // the device in arbitrary order
+                        "stale-entry-after-reuse+both-versions-in-one-multi-block-batch".to_string()
                     } else if latest_oversize && kind == "stale-version-returned" {
                         "oversize-update-leaves-older-copy".to_string()
                     } else if cfg.key_class.get(key as usize) == Some(&KeyClass::MemOnly) {
@@ -553,4 +559,40 @@ pub fn judge_c01(cfg: &HybCfg, ops: &[HOp], trace: &HTrace) -> C01Judgement {
         failures.push(Failure::new("panic", p.clone()));
     }
     C01Judgement { failures, flags }
+}
+
+
+/// Structural condition of the known finding "stale entry after reuse" (shared with C09): the block write that carries
+/// the stale version was unfinished, or not yet issued (waiting for a clean block), when a block write carrying a newer
+/// version of the key was issued - only the blocks of one multi-block batch reach the device in such an order (a
+/// flusher commits one batch at a time and a key always goes to the same flusher). Read from the device log with the
+/// independent format reader.
+pub fn older_version_written_after_newer(cfg: &HybCfg, trace: &HTrace, generation: u32, key: u64, stale: u64) -> bool {
+    use crate::fmtparse::{WriteKind, classify_write};
+    let tomb = if cfg.tombstone { Some(0usize) } else { None };
+    let mut of_stale = vec![];
+    let mut of_newer = vec![];
+    for (g, r) in trace.log.iter() {
+        if *g != generation || r.kind != crate::simdev::IoKind::Write {
+            continue;
+        }
+        let Some(data) = r.data.as_ref() else { continue };
+        if let WriteKind::Data(entries) = classify_write(r.part, r.offset, data, cfg.blob_index_size, tomb) {
+            for e in entries {
+                if e.key != Some(key) {
+                    continue;
+                }
+                if let Some(v) = e.value.as_ref() {
+                    if let Decoded::Valid { key: k2, version } = crate::hval::decode_value(v) {
+                        if k2 == key && version == stale {
+                            of_stale.push(r);
+                        } else if k2 == key && version > stale {
+                            of_newer.push(r);
+                        }
+                    }
+                }
+            }
+        }
+    }
+    of_stale.iter().any(|a| of_newer.iter().any(|b| a.completed_clock.unwrap_or(u64::MAX) > b.issued_clock))
 }
